@@ -371,6 +371,9 @@ func (cur *FieldMask) GetPath(desc *thrift_reflection.TypeDescriptor, path strin
 				if !cur.All() {
 					return nil, false
 				}
+				// '*' names no single field: go on with the shared sub mask (desc stays, as in addPath)
+				cur = cur.all
+				continue
 			} else {
 				return nil, false
 			}
